@@ -74,8 +74,18 @@ Definition d_connecting (s : script) (t0 x : Z) : bool :=
   | _ => false
   end.
 
+(* the ConnectToPeer write of the indirect attempt raises: the scripted ISendFail on a live server connection, or -- when
+   _send closes the connection from a detached task -- race mode with a failed GetPeerAddress write: the two attempts
+   start in the same loop iteration, the server connection is not yet CLOSING when the indirect attempt writes, and the
+   broken transport fails that write too (with the direct close, the connection is CLOSING at once and the write is
+   silently skipped) *)
+Definition ind_send_raises (s : script) : bool :=
+  match ir s with ISendFail => server_alive s | _ => false end ||
+  (SEND_FAILURE_DISCONNECT_DETACHED && match md s, ad s with Race, ASendFail => true | _, _ => false end).
+
 Definition indirect (s : script) (t0 : Z) : aout :=
   let alive := server_alive s in
+  if ind_send_raises s then Fail t0 else
   match ir s with
   | ISendFail => if alive then Fail t0 else Fail (t0 + PEER_INDIRECT_CONNECT_TIMEOUT)
   | IPierce => if alive && (i_delay s <? PEER_INDIRECT_CONNECT_TIMEOUT) then Succ (t0 + i_delay s)
@@ -87,8 +97,7 @@ Definition indirect (s : script) (t0 : Z) : aout :=
 
 (* the indirect attempt ended by itself through the exception of the ConnectToPeer write: the lines that
    cancel the waiters are never reached *)
-Definition ind_fail_residue (s : script) : bool :=
-  match ir s with ISendFail => server_alive s && negb INDIRECT_CLEANUP_ALWAYS | _ => false end.
+Definition ind_fail_residue (s : script) : bool := ind_send_raises s && negb INDIRECT_CLEANUP_ALWAYS.
 
 (* a cancelled indirect attempt (it always is inside its wait) leaves its two waiters unless the clean-up is in a finally *)
 Definition ind_cancel_residue : bool := negb INDIRECT_CLEANUP_ALWAYS.
